@@ -381,10 +381,10 @@ def snap_tree(
     if math.isclose(endpoint.x, points[i].x):
         points[i] = endpoint
     else:
-        points[i] = diagram.Vector2D(endpoint.x, points[i].y)
-        points.insert(
-            i + (i > next_i), diagram.Vector2D(endpoint.x, points[next_i].y)
-        )
+        # Insert a bend on the level of the next point, so that the
+        # edge still ends in ``endpoint`` (cf. ``snap_manhattan``).
+        points[i] = diagram.Vector2D(endpoint.x, points[next_i].y)
+        points.insert(i + (i > next_i), endpoint)
 
 
 def _construct_labels(
